@@ -12,6 +12,7 @@ import time
 import traceback
 
 ROOT = os.path.dirname(os.path.dirname(os.path.abspath(__file__)))
+OUT = os.environ.get("VERIF_OUT", ROOT)       # evidence/ and replays/ live here (only the seeded-change matrix redirects it)
 
 GLOBAL_ASSUMPTIONS = {
     "reals": "machine floating point treated as mathematical reals (rounding/overflow invisible to symreal and pyvc)",
@@ -176,11 +177,11 @@ class Run:
     # ------------------------------------------------------------------ finish
     def finish(self):
         wall = time.time() - self.t0
-        os.makedirs(os.path.join(ROOT, "evidence"), exist_ok=True)
+        os.makedirs(os.path.join(OUT, "evidence"), exist_ok=True)
         # replay files
         shown = 0
         for v in self.violations:
-            path = os.path.join(ROOT, v["replay"])
+            path = os.path.join(OUT, v["replay"])
             os.makedirs(os.path.dirname(path), exist_ok=True)
             with open(path, "w") as f:
                 json.dump({"property": self.pid, "obligation": v["obligation"], "what": v["what"], "config": v["key"],
@@ -245,7 +246,7 @@ class Run:
         cov.update(_jsonable(self.extra))
         ev = {"property_id": self.pid, "tier": self.tier, "seed": int(self.seed), "level": self.level, "coverage": cov,
               "assumptions": self.assumptions, "wall_s": round(wall, 2), "violations": len(self.violations)}
-        with open(os.path.join(ROOT, "evidence", self.pid + ".json"), "w") as f:
+        with open(os.path.join(OUT, "evidence", self.pid + ".json"), "w") as f:
             json.dump(ev, f, indent=1)
         print("%s tier=%s: obligations=%d discharged=%d undecided=%d rt_evals=%d known=%d violations=%d errors=%d wall=%.1fs -> exit %d"
               % (self.pid, self.tier, self.obligations, self.discharged, len(self.undecided), self.rt_evaluations,
